@@ -23,8 +23,8 @@ import (
 )
 
 const (
-	Unit     = 40 // bytes per model size unit
-	baseName = "sink.log"
+	Unit     = 40            // bytes per model size unit
+	baseName = "catalog.log" // a stem that ends in characters of its extension: "catalog" + ".log"
 	MaxDur   = 80 * time.Millisecond
 	PauseDur = 140 * time.Millisecond
 	safeDur  = 45 * time.Millisecond
@@ -161,20 +161,22 @@ type Listing struct {
 	Err    string
 }
 
-var tsRe = regexp.MustCompile(`^sink-(\d+)\.log$`)
-var extRe = regexp.MustCompile(`^(?:sink \(copy (\d+)\)\.log|sink_(\d+)\.log|sinkx-(\d+)\.log|ext-(\d+)\.dat)$`)
+var tsRe = regexp.MustCompile(`^catalog-(\d+)\.log$`)
+var extRe = regexp.MustCompile(`^(?:catalog \(copy (\d+)\)\.log|catalog_(\d+)\.log|catalogx-(\d+)\.log|cata-(\d+)\.log|ext-(\d+)\.dat)$`)
 
 // ExtName is the name of the k-th file outside the sink's name space: neighbours that share the base name and the
 // extension but not the "<base>-<timestamp><ext>" form (they sort before and after the sink's own files), or
 // something else altogether.
 func ExtName(k int) string {
-	switch k % 4 {
+	switch k % 5 {
 	case 0:
-		return fmt.Sprintf("sink (copy %d).log", k)
+		return fmt.Sprintf("catalog (copy %d).log", k)
 	case 1:
-		return fmt.Sprintf("sink_%d.log", k)
+		return fmt.Sprintf("catalog_%d.log", k)
 	case 2:
-		return fmt.Sprintf("sinkx-%d.log", k)
+		return fmt.Sprintf("catalogx-%d.log", k)
+	case 3:
+		return fmt.Sprintf("cata-%d.log", k) // the rotated file of a neighbour sink whose name is a prefix of ours
 	}
 	return fmt.Sprintf("ext-%d.dat", k)
 }
